@@ -121,12 +121,16 @@ function familyC (tier, opts = {}) {
   return { leaves, stats }
 }
 
+// operations whose OPERANDS suspend the function (await / yield between a temporary's assignment and its use)
+const G_ASYNC_OPS = [{ tpl: '(await a) + f()', kind: 'plus' }, { tpl: 'f() + (await b)', kind: 'plus' }, { tpl: '`${await a}${f()}${await b}`', kind: 'tpl' }, { tpl: '(await a).concat(f(), await b)', kind: 'method' }, { tpl: 'o.q.p += await b', kind: 'assign' }, { tpl: '(await s)?.trim()', kind: 'chain' }]
+const G_GEN_OPS = [{ tpl: '(yield a) + f()', kind: 'plus' }, { tpl: 'f() + (yield b)', kind: 'plus' }, { tpl: '`${yield a}${f()}`', kind: 'tpl' }, { tpl: 'a.concat(f(), yield b)', kind: 'method' }, { tpl: 'g().p += yield b', kind: 'assign' }]
+
 function familyG (tier, opts = {}) {
   const ops = opts.ops || REP_OPS_Q
   const leaves = []
   let stats = { states: 0, transitions: 0 }
-  for (const [stmts, ctxs] of [[Array.from(ASYNC_STMTS), G.EXPRCTX_ASYNC.concat(['@@', 'h(@@)'])], [Array.from(GEN_STMTS), G.EXPRCTX_GEN.concat(['@@', 'h(@@)'])]]) {
-    const r = enumerate([{ name: 'op', symbols: ops, free: true }, { name: 'stmtctx', symbols: stmts, free: true }, { name: 'exprctx', symbols: ctxs, free: true }, { name: 'scope', symbols: ['sloppy', 'strict_fn', 'module'], free: true }], {})
+  for (const [stmts, ctxs, extraOps] of [[Array.from(ASYNC_STMTS), G.EXPRCTX_ASYNC.concat(['@@', 'h(@@)']), G_ASYNC_OPS], [Array.from(GEN_STMTS), G.EXPRCTX_GEN.concat(['@@', 'h(@@)']), G_GEN_OPS]]) {
+    const r = enumerate([{ name: 'op', symbols: ops.concat(extraOps), free: true }, { name: 'stmtctx', symbols: stmts, free: true }, { name: 'exprctx', symbols: ctxs, free: true }, { name: 'scope', symbols: ['sloppy', 'strict_fn', 'module'], free: true }], {})
     stats = addStats(stats, r.stats)
     for (const l of r.leaves) leaves.push(mkLeaf('G', { op: l.pick.op.tpl, opkind: l.pick.op.kind, stmtctx: l.pick.stmtctx, exprctx: l.pick.exprctx, scope: l.pick.scope }))
   }
